@@ -53,6 +53,10 @@ harness!(fub_poll_c2_inflight, fub::step_poll(&StepCfg { cap: 2, selfwakes: 0, m
 harness!(fub_poll_c2_handles, fub::step_poll(&StepCfg { cap: 2, selfwakes: 0, mon: fub::M_ALL, env_budget: 1, inflight_ok: false, quiet: false, handles: true }));
 harness!(fub_drop_c2, fub::step_drop(&StepCfg { cap: 2, selfwakes: 0, mon: fub::M_ALL, env_budget: 0, inflight_ok: false, quiet: false, handles: true }));
 
+// Layer S: the slot map by itself
+harness!(sm_step_c3, crate::sm::step(3));
+harness!(sm_step_c4, crate::sm::step(4));
+
 // FuturesUnordered (groups of capacities 1,2 stand in for 32,64)
 harness!(fu_poll_12, fu::step_poll(&UCfg { caps: [1, 2, 0], n: 2, selfwakes: 1, quiet: false, cursor: 0, qmax: [4, 4, 4] }));
 harness!(fu_poll_12_quiet, fu::step_poll(&UCfg { caps: [1, 2, 0], n: 2, selfwakes: 0, quiet: true, cursor: 0, qmax: [4, 4, 4] }));
@@ -75,6 +79,7 @@ harness!(fob_poll_c2, fob::step_poll(&OCfg { cap: 2, max_parked: 1, selfwakes: 0
 harness!(fob_poll_c2_p0, fob::step_poll(&OCfg { cap: 2, max_parked: 0, selfwakes: 0 }));
 harness!(fob_poll_c2_p2, fob::step_poll(&OCfg { cap: 2, max_parked: 2, selfwakes: 1 }));
 harness!(fob_push_c2, fob::step_push(&OCfg { cap: 2, max_parked: 1, selfwakes: 0 }));
+harness!(fob_drop_c2, fob::step_drop(&OCfg { cap: 2, max_parked: 1, selfwakes: 0 }));
 harness!(fob_new, fob::construct(2));
 harness!(fo_new, fob::construct_unbounded(2));
 harness!(fo_poll_c2, crate::fo::step_poll(&OCfg { cap: 2, max_parked: 1, selfwakes: 0 }));
@@ -83,6 +88,7 @@ harness!(fo_observe_c2, crate::fo::step_observe_push(&OCfg { cap: 2, max_parked:
 harness!(mb_poll_c2, mg::step_poll(&MCfg { cap: 2, selfwakes: 1, items: 1, quiet: false }));
 harness!(mb_poll_c2_quiet, mg::step_poll(&MCfg { cap: 2, selfwakes: 0, items: 1, quiet: true }));
 harness!(mu_poll_12_c0, mg::step_poll_unbounded(&MUCfg { caps: [1, 2], cursor: 0, selfwakes: 0, items: 1 }));
+harness!(mu_push_12, mg::step_push_unbounded(&MUCfg { caps: [1, 2], cursor: 0, selfwakes: 0, items: 0 }));
 harness!(mu_poll_12_c1, mg::step_poll_unbounded(&MUCfg { caps: [1, 2], cursor: 1, selfwakes: 0, items: 1 }));
 // buffered adapters
 harness!(ad_bu_n2, ad::step_buffer_unordered(&ACfg { n: 2, selfwakes: 0, parked: 0, max_remaining: 2 }));
@@ -109,6 +115,7 @@ harness!(wl_shape1_c2, crate::wl::shape(2, 1));
 harness!(wl_shape2_c2, crate::wl::shape(2, 2));
 harness!(wl_shape2_c3, crate::wl::shape(3, 2));
 harness!(wl_shape3_c2, crate::wl::shape(2, 3));
+harness!(wl_layout, crate::wl::layout_arith());
 // the same shapes on the reference model (refinement: the model answers like the real list)
 harness!(wm_fifo_c2, crate::wl::fifo(2));
 harness!(wm_shape0_c2, crate::wl::shape(2, 0));
@@ -137,6 +144,8 @@ pub fn table() -> &'static [(&'static str, fn())] {
         ("fub_push_c0", fub_push_c0),
         ("fub_wake_c2", fub_wake_c2),
         ("fub_drop_c2", fub_drop_c2),
+        ("sm_step_c3", sm_step_c3),
+        ("sm_step_c4", sm_step_c4),
         ("wm_lifecycle_c2", wm_lifecycle_c2),
         ("wl_fifo_c2", wl_fifo_c2),
         ("wl_shape0_c1", wl_shape0_c1),
@@ -146,6 +155,7 @@ pub fn table() -> &'static [(&'static str, fn())] {
         ("wl_shape2_c2", wl_shape2_c2),
         ("wl_shape2_c3", wl_shape2_c3),
         ("wl_shape3_c2", wl_shape3_c2),
+        ("wl_layout", wl_layout),
         ("wm_shape3_c2", wm_shape3_c2),
         ("wm_fifo_c2", wm_fifo_c2),
         ("wm_shape0_c2", wm_shape0_c2),
@@ -164,6 +174,8 @@ pub fn table() -> &'static [(&'static str, fn())] {
         ("fob_poll_c2_p2", fob_poll_c2_p2),
         ("fob_push_c2", fob_push_c2),
         ("fob_new", fob_new),
+        ("fob_drop_c2", fob_drop_c2),
+        ("mu_push_12", mu_push_12),
         ("fo_new", fo_new),
         ("fo_poll_c2", fo_poll_c2),
         ("fo_observe_c2", fo_observe_c2),
